@@ -243,15 +243,32 @@ theorem traceOKB_sound (cfg : Cfg α F) (st : St α F) (tr : List (Event α × S
 def restartB (cfg : Cfg α F) (t : ClearTbl) (d : α) (df : F) (st st' : St α F) : Bool :=
   decide (st'.pop = st.pop) && decide (st'.sum = startSumm cfg.eval t d df (st.pop.get? (0, 0)) st.sum)
 
+/-- a data shake between two observed states (the members re-observed under the new data): nothing
+    moves, `last_imp` / `gen` stay, the best-so-far fitness is the score of the best-so-far individual
+    under the new data -/
+def shakeB (cfg : Cfg α F) (st st' : St α F) : Bool :=
+  layerInvB st'.pop && decide (st'.pop.shape = st.pop.shape) && st'.pop.members.all cfg.wf &&
+  cfg.wf st'.sum.best && decide (st'.sum.bestFit = cfg.eval st'.sum.best) &&
+  decide (st'.sum.lastImp = st.sum.lastImp) && decide (st'.sum.gen = st.sum.gen)
+
+omit [FitOrd F] [DecidableEq α] in
+theorem shakeB_sound (cfg : Cfg α F) (st st' : St α F) (h : shakeB cfg st st' = true) : ShakeRel cfg st st' := by
+  unfold shakeB at h
+  simp only [Bool.and_eq_true, List.all_eq_true, decide_eq_true_eq] at h
+  obtain ⟨⟨⟨⟨⟨⟨h1, h2⟩, h3⟩, h4⟩, h5⟩, h6⟩, h7⟩ := h
+  exact ⟨(layerInvB_iff _).mp h1, h2, h3, h4, h5, h6, h7⟩
+
 /-- an observed event of a session -/
 inductive MEvent (α : Type)
   | ev (e : Event α)       -- inside a run
   | restart                -- `evolution::run` called again: stats_.clear(); best = pop[{0,0}]; …
+  | shake                  -- `shake(gen)` returned true at the head of a generation
 
 def mtransB (cfg : Cfg α F) (t : ClearTbl) (d : α) (df : F) (ev : MEvent α) (st st' : St α F) : Bool :=
   match ev with
   | .ev e => transB cfg e st st'
   | .restart => restartB cfg t d df st st'
+  | .shake => shakeB cfg st st'
 
 theorem mtransB_sound (cfg : Cfg α F) (t : ClearTbl) (d : α) (df : F) (ev : MEvent α) (st st' : St α F)
     (h : mtransB cfg t d df ev st st' = true) : MTrans cfg t d df st st' := by
@@ -260,6 +277,7 @@ theorem mtransB_sound (cfg : Cfg α F) (t : ClearTbl) (d : α) (df : F) (ev : ME
   | restart =>
     simp only [mtransB, restartB, Bool.and_eq_true, decide_eq_true_eq] at h
     exact MTrans.restart _ _ h.1 h.2
+  | shake => exact MTrans.shake _ _ (shakeB_sound cfg st st' h)
 
 def mtraceOKB (cfg : Cfg α F) (t : ClearTbl) (d : α) (df : F) : St α F → List (MEvent α × St α F) → Bool
   | _, [] => true
